@@ -31,7 +31,7 @@ def c02(tier):
 
 def c13(tier):
     vlib.standard(
-        "C13", tier, "c13", [f for f in ["Properties_C13.v", "Proofs_Walk.v"] if _exists(f)],
+        "C13", tier, "c13", [f for f in ["Properties_C13.v", "Proofs_Walk.v", "Proofs_History.v"] if _exists(f)],
         assume=["exempt by documented subject (file-level order): dupImport, commentedOutImport, typeDefFirst, codegenComment, importShadow",
                 "transformed examples are accepted only when they type-check as well as the original package"],
         trusted=FW_TRUSTED)
@@ -39,7 +39,7 @@ def c13(tier):
 
 def c03(tier):
     vlib.standard(
-        "C03", tier, "c03", [f for f in ["Properties_C03.v", "Proofs_History.v", "StateInventory.v"] if _exists(f)],
+        "C03", tier, "c03", [f for f in ["Properties_C03.v", "Proofs_History.v", "Proofs_Walk.v", "StateInventory.v"] if _exists(f)],
         assume=["pkgload sorts the loaded packages by PkgPath (documented behaviour of the loader; exercised end to end by the CLI stream, not modelled)",
                 "the ruleguard engines' internal state (gogrep matcher state, node path) is covered by the reused-vs-fresh oracle only"],
         trusted=FW_TRUSTED + ["translator vh gen stateinv (go/ast+go/types over /repo/checkers -> gen/StateInventory.v)"])
